@@ -57,15 +57,16 @@ for n in sorted(os.listdir(os.path.join(wt, "out"))):
     shutil.copy(demo, target)
     tests = re.findall(r"^func (Test\w+)\(", open(demo).read(), re.M)
     runre = "^(%s)$" % "|".join(tests)
-    rc1, out1 = sh("go test -vet=off -count=1 -run '%s' ./%s/" % (runre, pdir))
+    demogo = os.environ.get("DEMO_GO", "go")   # e.g. "GOTOOLCHAIN=local GODEBUG=asynctimerchan=0 go1.26.8" for synctest demos
+    rc1, out1 = sh("%s test -vet=off -count=1 -run '%s' ./%s/" % (demogo, runre, pdir))
     res["demo_fails_with_change"] = rc1 != 0
     sh("git apply -R %s" % patch)
-    rc2, out2 = sh("go test -vet=off -count=1 -run '%s' ./%s/" % (runre, pdir))
+    rc2, out2 = sh("%s test -vet=off -count=1 -run '%s' ./%s/" % (demogo, runre, pdir))
     res["demo_passes_without_change"] = rc2 == 0
     os.remove(target)
     sh("git checkout -- . && git clean -fdq -e out")
     res["confirmed"] = all([res["applies"], res["builds_with_change"], res["suite_passes_with_change"], res["demo_fails_with_change"], res["demo_passes_without_change"]])
-    res["ran"] = ["git apply patch.diff", "go build ./...", "go test -vet=off -count=1 ./internal/...", "go test -run '%s' ./%s/ (with and without the change)" % (runre, pdir)]
+    res["ran"] = ["git apply patch.diff", "go build ./...", "go test -vet=off -count=1 ./internal/...", "%s test -run '%s' ./%s/ (with and without the change)" % (demogo, runre, pdir)]
     print(json.dumps(res))
     if res["confirmed"]:
         dst = "/verif/seeded/%s-%s" % (pid, n)
